@@ -27,10 +27,11 @@ Vals == << << <<T("plain"), W(" "), T("value")>> >>,
            << <<T("multi")>>, <<T("line"), W(" "), T("two")>> >>,
            << <<T("~Uber"), W(" "), T("caf~E")>> >>,
            << <<T("two"), W("  "), T("spaces"), W("\t"), T("tab")>> >>,
-           << <<T("first")>>, <<T("second")>>, <<T("third&")>> >> >>
+           << <<T("first")>>, <<T("second")>>, <<T("third&")>> >>,
+           << <<T("C:\\dir\\"), W(" "), T("My"), W(" "), T("App\\bin")>> >> >>            \* backslashes, one of them before a space
 Bodies == << "", "Body paragraph.\n", "# Heading\n\ntext: with colon\n" >>
 \* update values (single line)
-UVals == << <<T("new")>>, <<T("a"), W(" "), T("longer"), W(" "), T("replacement"), W(" "), T("&"), W(" "), T("more")>>, <<T("10:30")>>, <<T("x")>>, <<>> >>
+UVals == << <<T("new")>>, <<T("a"), W(" "), T("longer"), W(" "), T("replacement"), W(" "), T("&"), W(" "), T("more")>>, <<T("10:30")>>, <<T("x")>>, <<>>, <<T("a\\"), W(" "), T("b\\c")>> >>
 
 \* ---- serialisation ----------------------------------------------------------------------------------------
 RECURSIVE Cat(_)
